@@ -109,7 +109,7 @@ def k_config(N=2, G=2):
         inv = ex.choice("invalidity", 9)
         label = "valid"
         if inv == 1:
-            data["jobs"][-1]["blocked_by"] = ["no_such_job"]
+            data["jobs"][ex.choice("bad_dep_job", len(data["jobs"]))]["blocked_by"] = ["no_such_job"]
             label = "dependency on a nonexistent job"
         elif inv == 2:
             if len(data["jobs"]) < 2:
@@ -117,7 +117,7 @@ def k_config(N=2, G=2):
             data["jobs"][1]["name"] = data["jobs"][0]["name"] if data["jobs"][0]["name"] is not None else str(data["jobs"][0]["job_id"])
             label = "duplicate job names"
         elif inv == 3:
-            data["jobs"][0]["submission_group"] = "nonexistent_group"
+            data["jobs"][ex.choice("bad_group_job", len(data["jobs"]))]["submission_group"] = "nonexistent_group"
             label = "job with an unknown submission group"
         elif inv == 4:
             if g < 2:
@@ -135,7 +135,7 @@ def k_config(N=2, G=2):
             data["submission_groups"][1]["name"] = data["submission_groups"][0]["name"]
             label = "duplicate group names"
         elif inv == 7:
-            data["jobs"][0]["estimated_run_minutes"] = 241  # walltime is 4:00:00
+            data["jobs"][ex.choice("bad_est_job", len(data["jobs"]))]["estimated_run_minutes"] = 241  # walltime is 4:00:00
             label = "estimated runtime above the walltime"
         elif inv == 8:
             if g < 2:
